@@ -116,6 +116,12 @@ CalcRoundT(v1, v2) ==
     /\ UNCHANGED <<blk, const, mp, aln, susp, lenA>>
 CalcRound(v1, v2) == CalcRoundT(v1, v2) /\ Log("CalcRound", <<v1, v2>>)
 
+(* an optimiser step BELOW the resolution of this abstraction (every free value moved by a few parts in a million, as *)
+(* near convergence) written back to the function, then the exact values written back: the abstract state is the      *)
+(* same, and at the nudged point the function must report what the calculator computed there                           *)
+CalcNudgeT == /\ ~susp /\ aln # BadAln /\ NFree > 0 /\ UNCHANGED <<blk, const, val, mp, aln, susp, lenA>>
+CalcNudge == CalcNudgeT /\ Log("CalcNudge", <<>>)
+
 (* set the first edge's branch length by VALUE, leaving it free: 0 puts a free parameter exactly on its bound *)
 SetLenT(v) == /\ (aln # BadAln \/ susp) /\ v \in {0, 1} /\ v # lenA /\ lenA' = v
               /\ UNCHANGED <<blk, const, val, mp, aln, susp>>
@@ -128,6 +134,7 @@ RefusedRule == RefusedRuleT /\ Log("RefusedRule", <<>>)
 
 Next == \/ \E v \in {0, 1} : SetLen(v)
         \/ RefusedRule
+        \/ CalcNudge
         \/ \E S \in SUBSET Edges \ {{}}, i \in BOOLEAN, c \in BOOLEAN, v \in Vals \cup {NoVal} : SetRule(S, i, c, v)
         \/ \E m \in Mprobs : SetMprobs(m)
         \/ \E a \in Alns : SetAln(a)
